@@ -7,12 +7,12 @@ ROOT = os.path.dirname(os.path.dirname(os.path.abspath(__file__)))
 CHECKS = {
  "C15": ("servlab", "exploration",
    "runtime monitor on regenerated servers: counting ResponseWriter, recording ErrorHandler/NotFound/MethodNotAllowed callbacks and handler, recover around ServeHTTP; byte-level mutation of requests captured from the generated client",
-   "For every operation of the regenerated corpus packages valid requests are captured in wire form from the generated client and then mutated systematically (methods, request-target/query corruption, header drop/duplicate/corrupt/empty, wrong and parameterised content types, Content-Length lies, body truncated at every prefix <= 64, trailing bytes, duplicate/dropped/null/unknown JSON members, 10^4-deep nesting, replaced bodies, multipart boundary faults), with PRNG byte mutants, hand-built *http.Request values that bypass URL validation, and a handler scripted to fail. Oracle: no panic, at most one WriteHeader, exactly one terminal stage, the stage->status table (404/405/401/400/415/500) with the handler never invoked on a refusal, and no handler call on a JSON body that is not one well-formed JSON text.",
+   "For every operation of the regenerated corpus packages valid requests are captured in wire form from the generated client and then mutated systematically (methods, request-target/query corruption, header drop/duplicate/corrupt/empty, wrong and parameterised content types, Content-Length lies, body truncated at every prefix <= 64, trailing bytes, duplicate/dropped/null/unknown JSON members, 10^4-deep nesting, replaced bodies, multipart boundary faults), with PRNG byte mutants, hand-built *http.Request values that bypass URL validation (RawPath from a grammar: plain / needlessly escaped / escaped-separator prefix x complete, truncated or non-hex escape at the end or before more text), and a handler scripted to fail. Oracle: no panic, at most one WriteHeader, exactly one terminal stage, the stage->status table (404/405/401/400/415/500) with the handler never invoked on a refusal, and no handler call on a JSON body that is not one well-formed JSON text.",
    "Mutants that net/http itself cannot parse are tallied and not sent. Bodies with ill-formed UTF-8 inside strings or duplicate member names that reach the handler are tallied, not judged. Schema-level over-acceptance is C03's subject.",
    "DESIGN.md §2 C15"),
  "C19": ("servlab", "exploration",
    "Go race detector on a race-instrumented driver linking freshly generated client+server; isolation oracle (concurrent outcome == sequential outcome per call, unique ids in every value); porcupine linearizability check of recorded key/value histories",
-   "A driver built with -race runs, for ogen's sample/parameters/requests specs (request and response validation on, RE2 and regexp2 patterns) and a key/value spec, a fixed list of calls (valid, hostile, validation-failing; every operation) first sequentially and then concurrently in PRNG order from 32-64 goroutines over an in-process wire transport and a real loopback connection pool, with GOMAXPROCS 2 and 16 and PRNG-determined delays in the handler. Each call's concurrent outcome must equal its sequential one; GORACE logs are split into report blocks and any block is a violation; key/value histories (unique written values) are checked per key with porcupine against a register model.",
+   "A driver built with -race runs, for ogen's sample/parameters/requests specs (request and response validation on, RE2 and regexp2 patterns) and a key/value spec, a fixed list of calls (valid, hostile, validation-failing; every operation) first sequentially and then concurrently in PRNG order (OpenTelemetry instrumentation generated in; the same handler also behind a second server with a chain of three pass-through middlewares that yield before handing on) from 32-64 goroutines over an in-process wire transport and a real loopback connection pool, with GOMAXPROCS 2 and 16 and PRNG-determined delays in the handler. Each call's concurrent outcome must equal its sequential one; GORACE logs are split into report blocks and any block is a violation; key/value histories (unique written values) are checked per key with porcupine against a register model.",
    "Interleavings are those the scheduler produced; the evidence reports handler invocations in flight (a run without concurrency is inconclusive). A porcupine timeout is inconclusive.",
    "DESIGN.md §2 C19"),
  "C03": ("servlab", "exploration",
@@ -38,26 +38,26 @@ CHECKS = {
  "C04": ("servlab", "exploration",
    "runtime monitor on regenerated packages: reflection-built validated values of every type with a generated JSON codec; strict RFC 8259 parser, two round-trip legs, Go-level and JSON-level comparison",
    "For every named type with Encode/Decode in the regenerated corpus packages (incl. the type x format matrix format_gen.json) values are built by reflection (all Opt/Nil/OptNil states, every sum variant, enums, nil/empty/filled arrays and maps, extreme numbers, Unicode and escape-heavy strings, recursion) and kept if the generated Validate() accepts them. Oracle: Encode output is strict JSON without duplicate members; Decode accepts it; nothing written is lost or changed (members added by schema defaults allowed); the decoded value is a fixed point of a second round trip at JSON and Go level; optional/nullable state, empty-vs-absent array and length differences of the first leg are violations; the decoded value validates. Thorough runs the whole corpus.",
-   "Conformance of the encoding to the source schema is decided in C03's schema-known specs; for corpus types the schema is not consulted. Not judged: pattern-keyed maps (keys built empty after a probe), ipv4/ipv6 sharing netip.Addr, oneOf values whose distinguishing members are all unset, Go-representation differences that encode to the same JSON.",
+   "Conformance of the encoding to the source schema is decided on schema-known generated families (C03's engine in conformance mode: values of the root types built by reflection, kept if the generated Validate() passes, encoded, and the JSON validated against the source schema by the reference validator); for corpus types the schema is not consulted. Not judged: pattern-keyed maps (keys built empty after a probe), ipv4/ipv6 sharing netip.Addr, oneOf values whose distinguishing members are all unset, Go-representation differences that encode to the same JSON.",
    "DESIGN.md §2 C04"),
  "C11": ("genlab", "exploration",
    "runtime monitor over child processes running the real parser+generator on single-fault structural mutants and byte-level mutants; rusage ceilings; position oracle over node spans recorded by the harness's emitter",
-   "19 mutation kinds (delete, null, retype, number<->string, duplicate key, rename-to-collide, broken escape in a path key, dangling and self $ref, huge/negative/big numbers, 1000-deep nesting, empty map/string, long string) at every node (quick: PRNG-chosen nodes) of corpus documents in JSON and YAML spelling, plus truncation / bit flip / token insertion / deletion of the raw bytes; each run through ogen.Parse + gen.NewGenerator (+ WriteSource) in worker processes that log the input id before the call. Violations: panic, process death (fatal error), failure without error, CPU or allocation above the ceiling, a reported line:col outside the document or not at a node start, or (documents that generate before mutation) a reported node unrelated to the faulty node.",
-   "Ceilings: max(30 s CPU, 100 x unmutated document), max(8 GiB allocated, 100 x). Relatedness is generous (ancestor, descendant, sibling for key faults, or a node mentioning the faulty node); JSON-vs-YAML disagreement on the reported node is reported as inconclusive. Quick runs the template stage for every 5th mutant.",
+   "22 mutation kinds (allOf cycles direct and through an inline wrapper, path-template faults at path keys, null/empty members of every kind of named-object container per context, delete, null, retype, number<->string, duplicate key, rename-to-collide, broken escape in a path key, dangling and self $ref, huge/negative/big numbers, 1000-deep nesting, empty map/string, long string) at every node (quick: PRNG-chosen nodes) of corpus documents in JSON and YAML spelling, plus truncation / bit flip / token insertion / deletion of the raw bytes; each run through ogen.Parse + gen.NewGenerator (+ WriteSource) in worker processes that log the input id before the call. Violations: panic, process death (fatal error), failure without error, CPU or allocation above the ceiling, a reported line:col outside the document or not at a node start, or (documents that generate before mutation) a reported node unrelated to the faulty node.",
+   "Ceilings: max(300 s CPU, 100 x unmutated document), max(8 GiB allocated, 100 x). Relatedness is generous (ancestor other than the root, descendant, sibling for key faults, another member of the same small object, or a node mentioning the faulty node; path-key faults must be located at that key); JSON-vs-YAML disagreement on the reported node is reported as inconclusive. Quick runs the template stage for every 5th mutant.",
    "DESIGN.md §2 C11"),
  "C10": ("genlab", "exploration",
    "Go race detector on race-instrumented generator worker processes + differential comparison of all bytes written across repetitions, GOMAXPROCS settings, process histories and injected delays",
-   "Each document (corpus selection, feature variants including all-features, failing documents interleaved) is generated repeatedly inside worker processes built with -race from the current tree, with GOMAXPROCS in {1,2,16} (quick) / {1,2,3,5,16} (thorough), a different document order per process and PRNG-determined Gosched/sleep at the FileSystem callback between template execution and file write. All runs of a document must write identical bytes and never fail only sometimes; GORACE logs are split into report blocks, deduplicated by top-frame pair, and any block is a violation. Evidence lists the number of distinct file-completion orders observed.",
+   "Each document (corpus selection with default features and with every feature on, a crafted document of order-sensitive constructs - example maps at every site, header/response/media-type/encoding maps, discriminator mappings, server variables, multi-schema reference cycles -, PRNG-generated schema documents with example maps, failing documents interleaved) is generated repeatedly inside worker processes built with -race from the current tree, with GOMAXPROCS in {1,2,16} (quick) / {1,2,3,5,16} (thorough), a different document order per process and PRNG-determined Gosched/sleep at the FileSystem callback between template execution and file write. All runs of a document must write identical bytes and never fail only sometimes; GORACE logs are split into report blocks, deduplicated by top-frame pair, and any block is a violation. Evidence lists the number of distinct file-completion orders observed.",
    "Schedules are those the scheduler produced; a run in which no document showed more than one completion order is reported inconclusive for the schedule part. Differing error texts of an always-failing document are tallied only.",
    "DESIGN.md §2 C10"),
  "C17": ("genlab", "exploration",
    "differential execution of the real parser+generator on meaning-preserving re-spellings produced by independent serializers (guarded by an independent loader round trip)",
-   "Every document (crafted order/text-sensitive specs, corpus incl. negative ones) is loaded into an ordered tree and re-emitted in 8 spellings (JSON indented/compact/ASCII-escaped, YAML block 2/4, always-quoted, flow, comments+single quotes, anchors+aliases); each spelling that the harness's own loader maps back to the same ordered data is generated with the real generator; written file hashes (or position-stripped diagnostics) must equal those of the original spelling.",
-   "YAML loader of the harness is gopkg.in/yaml.v3 (ogen uses the go-faster fork); diagnostics unstable across three runs of the original spelling are inconclusive for the diagnostic clause.",
+   "Every document (crafted order/text-sensitive specs, corpus incl. negative ones) is loaded into an ordered tree and re-emitted in 9 spellings (JSON indented/compact/ASCII-escaped, YAML block 2/4, always-quoted, flow, comments+single quotes, anchors+aliases, and plain scalars wherever gopkg.in/yaml.v3 reads the plain scalar back as the same string); 5 (quick) / 40 (thorough) fault-injected variants of every document (C11's injector) go through the same comparison, so that the diagnostic clause sees many invalid documents; each spelling that the harness's own loader maps back to the same ordered data is generated with the real generator; written file hashes (or position-stripped diagnostics) must equal those of the original spelling.",
+   "YAML loader of the harness is gopkg.in/yaml.v3 (ogen uses the go-faster fork); diagnostics unstable across three runs of the original spelling are inconclusive for the diagnostic clause, and a difference is attributed to the spelling only if 12 further runs of each spelling never produce the other's text (ogen picks among several faults by map order).",
    "DESIGN.md §2 C17"),
  "C13": ("libmon", "exploration",
    "runtime monitor over every encode/decode helper pair (inventory read from the sources with go/parser): round trip, format-syntax recognisers, independent text-to-value recomputation",
-   "All 82 helper pairs of conv and json (inventory checked against the source at run time) are driven with exhaustive 8/16-bit integers and booleans, boundary lists plus PRNG values for wider integers, random finite bit patterns and shortest-decimal hard cases for floats, stratified instants over years 0001-9999 in UTC and fixed-offset zones, Unix stamps in each unit, durations, UUIDs, IPs, MACs, URLs and the array variants. Oracle: decode(encode(v)) equals v at the format's resolution, the text matches the format's syntax (RFC 3339, RFC 8259 number, UUID, Go duration) and denotes the value.",
+   "All 82 helper pairs of conv and json (inventory checked against the source at run time) are driven with exhaustive 8/16-bit integers and booleans, boundary lists plus PRNG values for wider integers, random finite bit patterns and shortest-decimal hard cases for floats (thorough: all 2^32 float32 bit patterns), stratified instants over years 0001-9999 in UTC and fixed-offset zones, Unix stamps in each unit, durations, UUIDs, IPs, MACs, URLs and the array variants. Oracle: decode(encode(v)) equals v at the format's resolution, the text matches the format's syntax (RFC 3339, RFC 8259 number, UUID, Go duration) and denotes the value.",
    "Classes the formats do not define (years outside 0000-9999, sub-minute zone offsets, NaN/Inf, relative URI references) are tallied and checked for no panic only.",
    "DESIGN.md §2 C13"),
  "C09": ("servlab", "exploration",
@@ -83,7 +83,7 @@ CHECKS = {
  "C12": ("libmon", "exploration",
    "runtime monitor with reference normaliser: bounded-exhaustive + PRNG inputs at the public API, panic guard",
    "Every string up to length 6 (quick) / 8 (thorough) over a 10-symbol alphabet of '%', hex digits of both cases, a non-hex letter, unreserved and reserved bytes is passed to the real uri.NormalizeEscapedPath and decided by a reference normaliser (validity, canonical form, octet preservation, idempotence, no panic); plus PRNG byte strings; plus the parser's duplicate-path-key detection on equivalent and non-equivalent key pairs. Held = no observed execution disagreed with the reference.",
-   "Reference normaliser written from RFC 3986 and the property text; routing consequence is observed on regenerated servers by the C05 engine.",
+   "Reference normaliser written from RFC 3986 and the property text. The routing clause runs inside this check on regenerated servers (C05 engine, escapes-only mode): equivalent re-escapings of a path, incl. a needlessly escaped mount prefix, must route identically and malformed RawPath must not panic.",
    "DESIGN.md §2 C12"),
  "C14": ("genlab", "exploration",
    "differential execution: regenerate every go:generate directive with tools built from /repo and compare bytes with the checked-in files",
